@@ -252,7 +252,11 @@ class JumpFromResidual(Obligation):
             cx.eq('momentum jump', P + rho * D * D, P0 + rho1 * (u0 - D) * (u0 - D), when=zero)
             cx.eq('energy jump', rho * (0 - D) * (e + D * D / 2) + P * (0 - D),
                   rho1 * (u0 - D) * (e0 + (u0 - D) * (u0 - D) / 2) + P0 * (u0 - D), when=zero)
-            cx.gt('D>0', D, 0, when=zero)
+            # positive shock speed at a PHYSICAL zero (shocked pressure and energy positive): the residuals are polynomial-like
+            # and also vanish at non-physical points (Steinberg, m >= 1: D < 0 with negative pressure and a negative
+            # pre-shock density rho0 (1 - u0/D)^m), which no "physically reasonable starting guess" converges to
+            phys = (zero & (P > 0) & (e > 0)) if cx.symbolic else (zero and P > 0 and e > 0)
+            cx.gt('D>0', D, 0, when=phys)
         else:
             # simplified residuals (planar, P0 = 0): D eliminated; the implied D = -u0 rho0/(rho-rho0)
             D = -u0 * rho0 / (rho - rho0)
